@@ -19,16 +19,22 @@ Import ListNotations.
    above `+ -` above comparisons above `!x` above `&&` above `||` above conversions above
    if-then-else above `|>`; `^` right-associative and above juxtaposition; factorials and
    unicode exponents above `^`; all binary levels left-associative; no out-of-fuel, no error. *)
-Theorem C10_roundtrip : forall t : sx, wf t = true -> parse (pr t) = Ok [desugar t] [].
+Theorem C10_roundtrip : forall t : sx, wf t = true -> parse (pr t) = Ok [StExpr (desugar t)] [].
 Proof. exact roundtrip. Qed.
 Print Assumptions C10_roundtrip.
 
 (* Every abstract operator tree (any combination and depth of the documented operators,
    calls, field access, conditionals; literals without underscores; factorial orders >= 1),
    printed with parentheses exactly where the precedence table demands them, parses to itself. *)
-Theorem C10_precedence : forall e : expr, printable e = true -> parse (pr (min_paren e)) = Ok [e] [].
+Theorem C10_precedence : forall e : expr, printable e = true -> parse (pr (min_paren e)) = Ok [StExpr e] [].
 Proof. exact precedence_roundtrip. Qed.
 Print Assumptions C10_precedence.
+
+(* Statements of the model: an expression, `let name = e` (no type annotation, no decorator) and the
+   procedure calls print / assert / assert_eq / type with any number of arguments. *)
+Theorem C10_roundtrip_stmt : forall s : sst, wf_stmt s = true -> parse (pr_stmt s) = Ok [desugar_stmt s] [].
+Proof. exact roundtrip_stmt. Qed.
+Print Assumptions C10_roundtrip_stmt.
 
 (* Two well-formed renderings of the same tree (redundant parentheses, `per` vs `/`,
    `to` vs `->`, unary plus, `^-x` vs `^(-x)`) parse identically. *)
@@ -71,16 +77,16 @@ Print Assumptions C10_fuel.
    whatever the parser accepts is the print of a well-formed derivation tree of the documented
    grammar and the result is the documented tree of it — nothing outside the grammar is accepted or
    reinterpreted. *)
-Theorem C10_sound_core : forall ts es,
-  core ts = true -> no_separator ts = true -> parse ts = Ok es [] ->
-  ts = [] /\ es = [] \/ exists t, wf t = true /\ pr t = ts /\ es = [desugar t].
+Theorem C10_sound_core : forall ts ss,
+  core ts = true -> no_separator ts = true -> parse ts = Ok ss [] ->
+  ts = [] /\ ss = [] \/ exists s, wf_stmt s = true /\ pr_stmt s = ts /\ ss = [desugar_stmt s].
 Proof. exact parse_sound. Qed.
 Print Assumptions C10_sound_core.
 
-(* Together with C10_roundtrip: acceptance on the core is characterised exactly. *)
-Theorem C10_characterised : forall ts e,
+(* Together with C10_roundtrip_stmt: acceptance on the core is characterised exactly. *)
+Theorem C10_characterised : forall ts st,
   core ts = true -> no_separator ts = true ->
-  (parse ts = Ok [e] [] <-> exists t, wf t = true /\ pr t = ts /\ desugar t = e).
+  (parse ts = Ok [st] [] <-> exists s, wf_stmt s = true /\ pr_stmt s = ts /\ desugar_stmt s = st).
 Proof. exact parse_characterised. Qed.
 Print Assumptions C10_characterised.
 
@@ -88,8 +94,8 @@ Print Assumptions C10_characterised.
    conditionals and literals), trailing commas and several statements.
    There the correspondence check and the reference recogniser decide. *)
 Definition C10_full : Prop :=
-  forall ts es, parse ts = Ok es [] ->
-  exists trees, Forall (fun t => wf t = true) trees /\ map desugar trees = es.
+  forall ts ss, parse ts = Ok ss [] ->
+  exists stmts, Forall (fun s => wf_stmt s = true) stmts /\ map desugar_stmt stmts = ss.
 
 (* ---- non-vacuity *)
 Definition id_ (c : N) : sx := SIdent [c].
@@ -99,8 +105,8 @@ Definition num_ (c : N) : sx := SNum [c].
 Example C10_ex_implicit_mul_div :
   let t := SBin TDivide (SIMul (SNum [53; 48]%N) (SIdent [99; 109]%N)) (SIMul (num_ 50) (id_ 109)) in
   wf t = true
-  /\ parse (pr t) = Ok [EBin Div (EBin Mul (EScalar [53; 48]%N) (EIdent [99; 109]%N))
-                               (EBin Mul (EScalar [50]%N) (EIdent [109]%N))] [].
+  /\ parse (pr t) = Ok [StExpr (EBin Div (EBin Mul (EScalar [53; 48]%N) (EIdent [99; 109]%N))
+                               (EBin Mul (EScalar [50]%N) (EIdent [109]%N)))] [].
 Proof. vm_compute. split; reflexivity. Qed.
 
 (* `1 / meter per second`: per binds tighter than `/`; `-2^2!`: unary minus below power below factorial *)
@@ -109,15 +115,15 @@ Example C10_ex_per_and_minus :
   let t2 := SNeg (SPow (num_ 50) false (SFact (num_ 50) 0)) in
   wf t1 = true /\ wf t2 = true
   /\ pr t1 = [TNumber [49]; TDivide; TIdent [109]; TPer; TIdent [115]]%N
-  /\ parse (pr t1) = Ok [EBin Div (EScalar [49]%N) (EBin Div (EIdent [109]%N) (EIdent [115]%N))] []
-  /\ parse (pr t2) = Ok [EUn Negate (EBin Power (EScalar [50]%N) (EUn (Factorial 1) (EScalar [50]%N)))] [].
+  /\ parse (pr t1) = Ok [StExpr (EBin Div (EScalar [49]%N) (EBin Div (EIdent [109]%N) (EIdent [115]%N)))] []
+  /\ parse (pr t2) = Ok [StExpr (EUn Negate (EBin Power (EScalar [50]%N) (EUn (Factorial 1) (EScalar [50]%N))))] [].
 Proof. vm_compute. repeat split; reflexivity. Qed.
 
 (* a tree that is NOT well-formed (`a (b)` is a call, not a product) is excluded by wf, and the
    parser indeed reads its print differently *)
 Example C10_ex_wf_excludes :
   let t := SIMul (id_ 97) (SParen (id_ 98)) in
-  wf t = false /\ parse (pr t) = Ok [ECall (EIdent [97]%N) [EIdent [98]%N]] [].
+  wf t = false /\ parse (pr t) = Ok [StExpr (ECall (EIdent [97]%N) [EIdent [98]%N])] [].
 Proof. vm_compute. split; reflexivity. Qed.
 
 (* min_paren puts parentheses only where needed: (a+b)*c keeps them, a+(b*c) drops them *)
@@ -139,7 +145,7 @@ Example C10_ex_list_struct :
   wf t = true
   /\ pr t = [TIdent [83]; TLCurly; TIdent [97]; TColon; TLBracket; TNumber [49]; TComma; TNumber [50]; TPlus;
             TIdent [120]; TRBracket; TComma; TIdent [98]; TColon; TLBracket; TRBracket; TRCurly; TPeriod; TIdent [97]]%N
-  /\ parse (pr t) = Ok [desugar t] [].
+  /\ parse (pr t) = Ok [StExpr (desugar t)] [].
 Proof. vm_compute. repeat split; reflexivity. Qed.
 
 (* inputs outside the grammar are rejected by the model (not reinterpreted) *)
@@ -147,4 +153,14 @@ Example C10_ex_rejects :
   parse [TNumber [50]; TTrue]%N = Err TrailingCharacters
   /\ parse [TIdent [97]; TPower; TPlus; TIdent [98]]%N = Err ExpectedPrimary
   /\ parse [TLParen; TNumber [49]]%N = Err MissingClosingParen.
+Proof. vm_compute. repeat split; reflexivity. Qed.
+
+(* statements: `let x = 2 m` and `assert_eq(a, b + 1)` *)
+Example C10_ex_statements :
+  let s1 := SSLet [120]%N (SIMul (num_ 50) (id_ 109)) in
+  let s2 := SSProc KAssertEq [id_ 97; SBin TPlus (id_ 98) (num_ 49)] in
+  wf_stmt s1 = true /\ wf_stmt s2 = true
+  /\ pr_stmt s1 = [TKw KLet; TIdent [120]; TEqual; TNumber [50]; TIdent [109]]%N
+  /\ parse (pr_stmt s1) = Ok [StLet [120]%N (EBin Mul (EScalar [50]%N) (EIdent [109]%N))] []
+  /\ parse (pr_stmt s2) = Ok [StProc KAssertEq [EIdent [97]%N; EBin Add (EIdent [98]%N) (EScalar [49]%N)]] [].
 Proof. vm_compute. repeat split; reflexivity. Qed.
